@@ -620,6 +620,9 @@ def export_check(probe):
         if not os.path.exists(lock):
             shutil.copy(os.path.join(REPO, "Cargo.lock"), lock)
         p = sh(["cargo", "build", "--offline"], cwd=crate, env=cargo_env({"CARGO_TARGET_DIR": tdir}), timeout=1800, check=False)
+        if p.returncode != 0 and "cannot find `attr` in `diplomat`" not in p.stderr:
+            shutil.copy(os.path.join(REPO, "Cargo.lock"), lock)  # the repo's lock file may have moved on: one retry with a fresh copy
+            p = sh(["cargo", "build", "--offline"], cwd=crate, env=cargo_env({"CARGO_TARGET_DIR": tdir}), timeout=1800, check=False)
         o = {"crate": crate, "placements": placements, "compiled": p.returncode == 0, "want": want, "missing": [], "err": None,
              "lib_rs_sha": sha(lib)}
         if p.returncode != 0:
